@@ -19,6 +19,7 @@ Open Scope N_scope.
 From BCL Require Import Model.Compile Spec.Syntax Spec.AstSem Proofs.T2Expr Proofs.T2Proofs Proofs.T1Expr Proofs.T1Proofs Proofs.Language.
 From BCL Require Import Proofs.CompileVerifies.
 From BCL Require Import Proofs.ParserTotal.
+From BCL Require Import Proofs.VerifyFrag Proofs.CompileVerifies Proofs.Limits.
 
 Theorem C06_lexer_total : forall cs, exists tk,
   last_opt (fst (lex cs)) = Some tk /\ (ttyp tk = tEOF \/ ttyp tk = tFAIL).
@@ -100,6 +101,24 @@ Theorem C06_interpret_total : forall name src d t s,
   snd (interpret name src d t s) <> IModelFail (bs "parser panic site").
 Proof. first [exact ParserTotal.interpret_parser_total | apply ParserTotal.interpret_parser_total]. Qed.
 Print Assumptions C06_interpret_total.
+
+(* 'stack overflow' / 'too many nested blocks' are reported only for programs whose tree needs more than 1024 slots / 16 nested blocks *)
+Theorem C06_limits_are_the_tree_limits : forall (p : list stmt) name pos lfs fuel tr,
+  let cs := compile_program p in
+  hadError cs = false -> nconsts cs < 2^64 ->
+  let g := {| g_name := name; g_code := rev (code cs); g_consts := rev (consts cs); g_pos := pos; g_lfs := lfs |} in
+  let r := snd (run_fuel fuel g tr (init_vm g)) in
+  (overflow_res r -> stackSize < need_prog p) /\ (nesting_res r -> blockStackSize < nest_prog p).
+Proof. first [exact Limits.compiled_limit_error | apply Limits.compiled_limit_error]. Qed.
+Print Assumptions C06_limits_are_the_tree_limits.
+
+(* the maximal depths over all paths of the compiled code are exactly the tree's needs *)
+Theorem C06_peak_of_compiled_code : forall name src,
+  let pr := parse_whole name src in
+  pr_ok pr = true -> pr_oof pr = false -> pr_panic pr = false -> ps_constants (pr_stats pr) < 2^64 ->
+  exists p, ast_program (fst (lex [src])) = Some p /\ peak (pr_prog pr) = Some (need_prog p, nest_prog p).
+Proof. first [exact Limits.parsed_peak | apply Limits.parsed_peak]. Qed.
+Print Assumptions C06_peak_of_compiled_code.
 
 (* the literals and limits that used to panic are errors in the model (and, by the differential run, in the code) *)
 Example C06_example :
